@@ -626,6 +626,20 @@ def m_call(self, st, f, pos, kws, kwstar, starv, k, node=None):
         if f.payload[0].endswith('append'):
             return self.tv_frag_insert(st, frag, VInt(z3.Select(st.heap['Fragments.current_offset'], frag.z)), pos[0], k)
         return self.tv_frag_insert(st, frag, pos[0], pos[1], k)
+    if f.tag == 'contract' and (starv is not None or isinstance(kwstar, VConf)):
+        # g(x, *args, **kargs) with the caller's own opaque *args / **kargs (FragmentsOfRegexps.__init__): the call is
+        # translated only as the call g(x), under the call-site obligations that both are empty
+        if starv is not None:
+            if not (isinstance(starv, VSeqAbs) and starv.tag == 'opaque-varargs'):
+                raise Untranslated('call with *args of %s' % getattr(starv, 'tag', starv.kind))
+            self.add_obligation(st, 'pre@call', '*args forwarded to %s is empty' % f.payload[0], starv.n == 0, '')
+            st.assume(starv.n == 0)
+            starv = None
+        if isinstance(kwstar, VConf):
+            nokw = T.Conf.chas(kwstar.z) == z3.K(T.S, z3.BoolVal(False))
+            self.add_obligation(st, 'pre@call', '**kargs forwarded to %s is empty' % f.payload[0], nokw, '')
+            st.assume(nokw)
+            kwstar = None
     if f.tag == 'contract':
         c = self.contracts[f.payload[0]]
         selfv = f.payload[1]
@@ -872,7 +886,10 @@ def m_bind_args(self, c, pos, kws, kwstar):
     names = list(c.params.keys())
     env = {}
     kwparam = [p for p, kd in c.params.items() if kd == 'kw']
-    plain = [p for p in names if c.params[p] != 'kw']
+    plain = [p for p in names if c.params[p] not in ('kw', 'varargs')]
+    for p in names:
+        if c.params[p] == 'varargs':        # the callee's own *args: no call site passes extra positionals (else refused below)
+            env[p] = VSeqAbs(z3.IntVal(0), lambda i: VDyn(T.Val.VN), 'opaque-varargs')
     if len(pos) > len(plain):
         raise Untranslated('too many positional args for %s' % c.name)
     for p, v in zip(plain, pos):
